@@ -11,6 +11,7 @@ import Genq.Model.Config
 import Genq.Model.Conv
 import Genq.Model.Types
 import Genq.Model.Collect
+import Genq.Model.Vars
 open Lean
 namespace Genq.Driver
 
@@ -402,6 +403,18 @@ def opCollect (op : String) (j : Json) : Except String Json := do
                        ("spec", Json.arr ((Collect.specKeysList lookup obj sel).map Json.str).toArray)]
   | _ => throw s!"unknown op {op}"
 
+def opVars (op : String) (j : Json) : Except String Json := do
+  match op with
+  | "vars.keys" =>
+    let vs ← (← getArr j "vars").toList.mapM fun v => do
+      let shape ← match (← getStr v "shape") with
+        | "nilPointer" => pure Vars.Shape.nilPointer | "nilOrEmptySlice" => pure Vars.Shape.nilOrEmptySlice
+        | "zeroScalar" => pure Vars.Shape.zeroScalar | "nonEmpty" => pure Vars.Shape.nonEmpty
+        | s => throw s!"shape {s}"
+      pure ({ name := (← getStr v "name"), omitempty := (← getBool v "omitempty"), special := (← getBool v "special"), shape := shape } : Vars.Var)
+    return Json.mkObj [("out", Json.arr ((Vars.keys vs).map Json.str).toArray)]
+  | _ => throw s!"unknown op {op}"
+
 def dispatch (j : Json) : Json :=
   let r : Except String Json := do
     let op ← getStr j "op"
@@ -416,6 +429,7 @@ def dispatch (j : Json) : Json :=
     else if op.startsWith "conv." then opConv op j
     else if op.startsWith "types." then opTypes op j
     else if op.startsWith "collect." then opCollect op j
+    else if op.startsWith "vars." then opVars op j
     else throw s!"unknown op {op}"
   let idf := match j.getObjVal? "id" with | .ok v => [("id", v)] | .error _ => []
   match r with
